@@ -218,3 +218,117 @@ theorem loopInput_sizes (body params : List Var) :
     _ = _ := by rw [this]
 
 end ChibiVerif.Frame
+
+/-! ### absolute alignment: what `%rbp ≡ 0 (mod 16)` and an offset that is a multiple of the alignment give -/
+namespace ChibiVerif.Frame
+open ChibiVerif.Gen.C04
+open ChibiVerif.Gen.Declspec (alignTo)
+
+/-- a multiple of `2^k` with `k ≥ 4` is a multiple of 16 -/
+theorem mod16_of_mod_pow (off : Int) (k : Nat) (hk : 4 ≤ k) (h : off % (2 : Int) ^ k = 0) : off % 16 = 0 := by
+  obtain ⟨c, hc⟩ := Int.dvd_of_emod_eq_zero h
+  obtain ⟨j, rfl⟩ : ∃ j, k = 4 + j := ⟨k - 4, by omega⟩
+  have e : (2 : Int) ^ (4 + j) = 16 * 2 ^ j := by rw [Int.pow_add]; rfl
+  rw [e, Int.mul_assoc] at hc
+  omega
+
+theorem pow_ge_16 (k : Nat) (hk : 4 ≤ k) : (16 : Int) ≤ 2 ^ k := by
+  obtain ⟨j, rfl⟩ : ∃ j, k = 4 + j := ⟨k - 4, by omega⟩
+  have e : (2 : Int) ^ (4 + j) = 16 * 2 ^ j := by rw [Int.pow_add]; rfl
+  have : (0 : Int) < 2 ^ j := Int.pow_pos (by decide)
+  rw [e]; omega
+
+/-- the address `rbp + off` of an object whose offset is a multiple of its alignment `A = 2^k` (or of `max 16 A`, the
+    alignment assign_lvar_offsets gives an array of at least 16 bytes) is a multiple of `min A 16` when `%rbp` is a multiple
+    of 16 — and of 16 itself for such an array -/
+theorem addr_aligned (rbp off A F : Int) (k : Nat) (hA : A = 2 ^ k) (hF : F = A ∨ F = max 16 A) (hrbp : rbp % 16 = 0)
+    (hoff : off % F = 0) : (rbp + off) % min A 16 = 0 ∧ (F = max 16 A → (rbp + off) % 16 = 0) := by
+  by_cases hk : 4 ≤ k
+  · have hge := pow_ge_16 k hk
+    have hF' : F = A := by rcases hF with h | h <;> omega
+    rw [hF', hA] at hoff
+    have h16 := mod16_of_mod_pow off k hk hoff
+    have hmin : min A 16 = 16 := by omega
+    rw [hmin]
+    exact ⟨by omega, fun _ => by omega⟩
+  · have hk' : k = 0 ∨ k = 1 ∨ k = 2 ∨ k = 3 := by omega
+    rcases hk' with rfl | rfl | rfl | rfl <;> (try simp at hA) <;> subst hA <;>
+      (rcases hF with rfl | rfl <;> simp [Int.min_def, Int.max_def] at hoff ⊢ <;> omega)
+
+/-- each slot of the second loop next to the variable it was computed from -/
+theorem slotsOf_zip : ∀ (l : List (Var × Int)) (os : List Int), ∀ p ∈ l.zip (slotsOf l os),
+    p.2.size = p.1.1.size ∧ p.2.stack = decide (p.1.2 ≠ 0) ∧ p.2.align = (if p.1.2 ≠ 0 then 8 else p.1.1.frameAlign) := by
+  intro l
+  induction l with
+  | nil => intro os p hp; simp at hp
+  | cons e l ih =>
+    intro os p hp
+    obtain ⟨v, off⟩ := e
+    cases os with
+    | nil => simp [slotsOf] at hp
+    | cons o os =>
+      simp only [slotsOf, List.zip_cons_cons, List.mem_cons] at hp
+      rcases hp with rfl | hp
+      · exact ⟨rfl, rfl, rfl⟩
+      · exact ih os p hp
+
+theorem map_fst_zero (bs : List Var) : List.map ((fun x : Var × Int => x.fst) ∘ fun v => (v, (0 : Int))) bs = bs := by
+  induction bs with
+  | nil => rfl
+  | cons b bs ih => simp only [List.map_cons, Function.comp, ih]
+
+/-- the objects of a function's frame paired with their variables, in the order of `fn->locals` -/
+theorem frame_zip (body params : List Var) : ∀ p ∈ (body ++ params).zip (frameSlots body params),
+    p.2 ∈ frameSlots body params ∧ p.2.size = p.1.size ∧
+    (p.2.stack = false → p.2.align = p.1.frameAlign) ∧ (p.2.stack = true → p.1.byStack = true) := by
+  intro p hp
+  have hl : (loopInput body params).map (·.1) = body ++ params := by
+    unfold loopInput
+    rw [List.map_append, List.map_map]
+    have : (params.zip (assignParams FRAME_TOP0 params).1).map (·.1) = params :=
+      List.map_fst_zip (by rw [assignParams_length]; exact Nat.le_refl _)
+    rw [this]
+    rw [map_fst_zero]
+  rw [← hl, List.zip_map_left] at hp
+  obtain ⟨q, hq, rfl⟩ := List.mem_map.mp hp
+  obtain ⟨⟨v, off⟩, sl⟩ := q
+  dsimp only [Prod.map, id]
+  have hz := slotsOf_zip (loopInput body params) (assignLvarOffsets body params).offsets _ hq
+  simp only at hz
+  have hmem : sl ∈ frameSlots body params := (List.of_mem_zip hq).2
+  have hin : (v, off) ∈ loopInput body params := (List.of_mem_zip hq).1
+  refine ⟨hmem, hz.1, ?_, ?_⟩
+  · intro hs
+    have : ¬ (off ≠ 0) := by
+      intro h; rw [hz.2.1] at hs; simp [h] at hs
+    rw [hz.2.2, if_neg this]
+  · intro hs
+    have hoff : off ≠ 0 := by
+      intro h; rw [hz.2.1] at hs; simp [h] at hs
+    unfold loopInput at hin
+    rcases List.mem_append.mp hin with hb | hpz
+    · obtain ⟨b, _, hb⟩ := List.mem_map.mp hb
+      simp only [Prod.mk.injEq] at hb
+      exact absurd hb.2.symm hoff
+    · have hp' : ∀ v ∈ params, True := fun _ _ => trivial
+      -- a non-zero offset was written by the first loop only for `byStack` parameters
+      have key : ∀ (ps : List Var) (top : Int) (e : Var × Int), e ∈ ps.zip (assignParams top ps).1 → e.1.byStack = false → e.2 = 0 := by
+        intro ps
+        induction ps with
+        | nil => intro top e he; simp at he
+        | cons x xs ih =>
+          intro top e he hbs
+          cases hx : x.byStack
+          · simp only [assignParams, hx, Bool.false_eq_true, if_false, List.zip_cons_cons, List.mem_cons] at he
+            rcases he with rfl | he
+            · rfl
+            · exact ih top e he hbs
+          · simp only [assignParams, hx, if_true, List.zip_cons_cons, List.mem_cons] at he
+            rcases he with rfl | he
+            · simp [hx] at hbs
+            · exact ih _ e he hbs
+      cases hbs : v.byStack
+      · exact absurd (key params FRAME_TOP0 (v, off) hpz hbs) hoff
+      · rfl
+
+end ChibiVerif.Frame
